@@ -290,7 +290,11 @@ class Reader(BaseValidator):
 
         :raises cutplace.errors.DataError: on broken data
         """
-        for _ in self.rows():
+        rows_to_validate = self.rows()
+        if self._validate_until is not None:
+            # Same as validate(): do not read on once the rows to validate are through.
+            rows_to_validate = itertools.islice(rows_to_validate, self._validate_until)
+        for _ in rows_to_validate:
             pass
 
 
